@@ -188,7 +188,14 @@ func (w *wrapperCtx) rootOfView(v ssa.Value) (root ssa.Value, slices []*ssa.Call
 				continue
 			}
 			if !x.Common().IsInvoke() {
-				if f := closureTarget(x.Common().Value); f != nil && f.Blocks != nil && w.frames[f] == nil {
+				f := closureTarget(x.Common().Value)
+				if f == nil {
+					// a helper function of the module that cuts the view (`sim.StateRow(states, i, rowShape)`)
+					if sf := x.Common().StaticCallee(); sf != nil && InModule(sf) && sf.Signature.Recv() == nil && sf.Signature.Results().Len() == 1 && isNDType(sf.Signature.Results().At(0).Type()) {
+						f = sf
+					}
+				}
+				if f != nil && f.Blocks != nil && w.frames[f] == nil {
 					rets := returnsOf(f)
 					if len(rets) == 1 && len(rets[0].Results) == 1 && len(f.Params) == len(x.Common().Args) {
 						w.frames[f] = x
@@ -742,10 +749,56 @@ func (w *wrapperCtx) checkWriteFootprint() {
 			}
 			// direct write on the shared root: ApplySlice(loc, step, vals)
 			name := callName(c)
-			if name == "ApplySlice" && ai == 0 {
+			// … or a module helper that does nothing else to the array than that (`sim.StoreStates(states, i, packed)`)
+			asIns, asCommon := ins, c
+			var helperFrame *ssa.Function
+			if !c.IsInvoke() && name != "ApplySlice" {
+				if h := c.StaticCallee(); h != nil && InModule(h) && h.Blocks != nil && h.Signature.Recv() == nil && ai < len(h.Params) && w.frames[h] == nil {
+					var inner ssa.CallInstruction
+					nWritesIn := 0
+					for _, hc := range callsIn(h) {
+						hargs := hc.Common().Args
+						if hc.Common().IsInvoke() {
+							hargs = append([]ssa.Value{hc.Common().Value}, hargs...)
+						}
+						for hi, ha := range hargs {
+							if origin1(ha) != ssa.Value(h.Params[ai]) {
+								continue
+							}
+							hm, _ := w.eff.calleesOpen(hc)
+							writes := false
+							for _, cal := range hm {
+								if w.eff.Mutates(cal, hi) != nil {
+									writes = true
+								}
+							}
+							if writes {
+								nWritesIn++
+								if callName(hc.Common()) == "ApplySlice" && hi == 0 {
+									inner = hc
+								}
+							}
+						}
+					}
+					if cv, isCall := ins.(*ssa.Call); isCall && inner != nil && nWritesIn == 1 {
+						if w.frames == nil {
+							w.frames = map[*ssa.Function]*ssa.Call{}
+						}
+						w.frames[h] = cv
+						helperFrame = h
+						asIns, asCommon = inner, inner.Common()
+						name = "ApplySlice"
+					}
+				}
+			}
+			if name == "ApplySlice" && (ai == 0 || helperFrame != nil) {
 				cd, _ := w.cellDimFor(role)
-				margs := callArgs(c)
+				margs := callArgs(asCommon)
+				ins := asIns
 				loc := margs[0]
+				if helperFrame != nil {
+					defer func(h *ssa.Function) { delete(w.frames, h) }(helperFrame)
+				}
 				if !w.allocatedInClosure(loc) {
 					w.r.Fail("R04.2", okey, w.p.Pos(ins.Pos()), "ApplySlice location vector is shared between goroutines")
 					continue
